@@ -399,6 +399,19 @@ def program_set(tier, seed, want_calls=True):
             add((("cfg", "acc1", p1), ("for", "args", rl), ("cfg", "acc1", p2)))
             add((("for", "args", (("cfg", "acc1", p1), ("if", 1, rl, None), ("cfg", "acc1", p2))),))
             add((("cfg", "acc1", p1), ("rl", "acc1"), ("cfg", "acc1", p2), ("rl", "acc1")))
+    # two accelerators configured, then a call inside a conditional / loop followed by a new setup of only ONE of them,
+    # then the other one is configured again behind it
+    if want_calls:
+        for p1 in range(2):
+            for p2 in range(2):
+                for call in (("call",), ("lcall",)):
+                    inner = (call, ("cfg", "acc1", p2))
+                    pre = (("cfg", "acc1", p1), ("cfg", "acc2", p1))
+                    post = (("cfg", "acc2", p2),)
+                    add(pre + (("if", 0, inner, None),) + post)
+                    add(pre + (("if", 1, (("cfg", "acc1", p2),), inner),) + post)
+                    add(pre + (("for", "args", inner),) + post)
+                    add(pre + (("if", 0, inner, None), ("rl", "acc2")) + post)
     n_exh = len(progs)
     # sampled: two accelerators, bigger, deeper
     target = 500 if quick else 4000
